@@ -8,6 +8,8 @@ import (
 	"encoding/pem"
 	"errors"
 	"fmt"
+	"github.com/theparanoids/ysshra/attestation/yubiattest"
+	"github.com/theparanoids/ysshra/verifharness/lib/derx"
 	"net"
 	"os"
 	"path/filepath"
@@ -153,6 +155,9 @@ var _ yubiagent.YubiAgent = (*recAgent)(nil)
 
 var x509Certs []*x509.Certificate
 
+// legacyCerts counts the NULL-less RSA certificates among them.
+var legacyCerts int
+
 func loadCerts() {
 	repo := os.Getenv("VERIF_REPO_DIR")
 	if repo == "" {
@@ -164,6 +169,14 @@ func loadCerts() {
 		for blk, rest := pem.Decode(b); blk != nil; blk, rest = pem.Decode(rest) {
 			if c, err := x509.ParseCertificate(blk.Bytes); err == nil {
 				x509Certs = append(x509Certs, c)
+				// what old firmware issues: the same certificate with the RSA key's algorithm identifier lacking its NULL parameter
+				// (the signature no longer matches, which is of no concern to the transport)
+				if stripped, serr := derx.StripNULL(blk.Bytes); serr == nil {
+					if lc, lerr := yubiattest.ParseCertificate(stripped); lerr == nil {
+						x509Certs = append(x509Certs, lc)
+						legacyCerts++
+					}
+				}
 			}
 		}
 	}
